@@ -228,7 +228,8 @@ public:
         std::vector<bool> schedule;
         schedule.reserve(num_steps);
         for (Step step : steps) {
-            if (step.end_date().is_last_day_of_year())
+            if (step.start_date().year() != step.end_date().year()
+                || step.end_date().is_last_day_of_year())
                 schedule.push_back(true);
             else
                 schedule.push_back(false);
